@@ -600,6 +600,26 @@ func GenProgram(c *Cfg) func(t *rapid.T) *Program {
 			own := len(b.types)
 			ownS := len(b.svcs)
 			b.genDecls()
+			// a typedef may be written before the typedef it aliases (forward reference): move
+			// some aliases in front of their targets
+			for i := 0; i < len(f.Decls); i++ {
+				d := f.Decls[i]
+				if d.Kind != "typedef" || d.Type == nil || d.Type.Kind != "ref" || d.Type.File != fi {
+					continue
+				}
+				for j := 0; j < i; j++ {
+					if tgt := f.Decls[j]; tgt.Kind == "typedef" && tgt.Name == d.Type.Name {
+						if rapid.IntRange(0, 2).Draw(t, "fwdtypedef") == 0 {
+							moved := append([]*Decl{}, f.Decls[:j]...)
+							moved = append(moved, d)
+							moved = append(moved, f.Decls[j:i]...)
+							moved = append(moved, f.Decls[i+1:]...)
+							f.Decls = moved
+						}
+						break
+					}
+				}
+			}
 			allTypes = append(allTypes, append([]avail{}, b.types[own:]...))
 			allSvcs = append(allSvcs, append([]Ref{}, b.svcs[ownS:]...))
 		}
